@@ -25,14 +25,24 @@
                        (repaired); FALSE: it is nil until the next membership entry (shipped:
                        the node cannot snapshot - no compaction - but writes nothing wrong)
 
+     JoinerKnows       FALSE (shipped): a node restarts the way the allocator restarts every replica -
+                       startRaftNode with the partition's node list, which BOOTSTRAPS a group when the
+                       store is empty.  For a node that was ADDED to an existing group (it started with
+                       an empty log and no peers) and dies before its first durable write that is a
+                       group of its own: fabricated configuration entries at positions where the real
+                       group has other entries (NoFork; open finding of C05 / C03).  TRUE: the start-up
+                       knows that the replica joined an existing group and starts it without peers.
+
    SnapConfExact: the ConfState of every stored snapshot is the membership at its index -
    what a restart (and every node that is sent this snapshot) rebuilds its quorum from.
    TLC: holds with UpdateOnInstall = TRUE, counterexample with FALSE (a follower that was
    away while nodes joined, caught up by snapshot, snapshots locally). *)
 EXTENDS Integers, Sequences, FiniteSets, TLC
-CONSTANTS Node, InitMembers, MaxLog, MaxRestarts, UpdateOnInstall, RestoreOnRestart
-VARIABLES log, applied, libConf, hostConf, snap, first, restarts
-vars == <<log, applied, libConf, hostConf, snap, first, restarts>>
+CONSTANTS Node, InitMembers, MaxLog, MaxRestarts, UpdateOnInstall, RestoreOnRestart, JoinerKnows
+VARIABLES log, applied, libConf, hostConf, snap, first, restarts,
+          stored,   \* [Node -> BOOLEAN]: the node's store holds something (entries, hard state, snapshot)
+          forked    \* [Node -> BOOLEAN]: the node bootstrapped a group of its own over an existing one
+vars == <<log, applied, libConf, hostConf, snap, first, restarts, stored, forked>>
 
 NoConf == [has |-> FALSE, conf |-> {}]
 Has(c) == [has |-> TRUE, conf |-> c]
@@ -51,9 +61,11 @@ Init == /\ log = <<>>
         /\ snap = [n \in Node |-> [idx |-> 0, conf |-> {}]]
         /\ first = [n \in Node |-> 1]
         /\ restarts = 0
+        /\ stored = [n \in Node |-> n \in InitMembers]      \* the bootstrap entries are the first durable write
+        /\ forked = [n \in Node |-> FALSE]
 
 AppendEntry(e) == /\ Len(log) < MaxLog /\ log' = Append(log, e)
-             /\ UNCHANGED <<applied, libConf, hostConf, snap, first, restarts>>
+             /\ UNCHANGED <<applied, libConf, hostConf, snap, first, restarts, stored, forked>>
 AppendAdd(n) == n \notin MembersAt(Len(log)) /\ AppendEntry(<<"add", n>>)
 AppendRemove(n) == n \in MembersAt(Len(log)) /\ Cardinality(MembersAt(Len(log))) > 1 /\ AppendEntry(<<"remove", n>>)
 AppendData == AppendEntry(<<"data">>)
@@ -67,14 +79,15 @@ Apply(n) ==
      /\ applied' = [applied EXCEPT ![n] = i]
      /\ libConf' = [libConf EXCEPT ![n] = MembersAt(i)]
      /\ hostConf' = [hostConf EXCEPT ![n] = IF log[i][1] \in {"add", "remove"} THEN Has(MembersAt(i)) ELSE @]
-  /\ UNCHANGED <<log, snap, first, restarts>>
+  /\ stored' = [stored EXCEPT ![n] = TRUE]
+  /\ UNCHANGED <<log, snap, first, restarts, forked>>
 
 \* trySnapshot + CreateSnapshot: refused without a configuration; compacts the log up to the snapshot
 LocalSnapshot(n) ==
   /\ hostConf[n].has /\ applied[n] > snap[n].idx
   /\ snap' = [snap EXCEPT ![n] = [idx |-> applied[n], conf |-> hostConf[n].conf]]
   /\ first' = [first EXCEPT ![n] = applied[n] + 1]
-  /\ UNCHANGED <<log, applied, libConf, hostConf, restarts>>
+  /\ UNCHANGED <<log, applied, libConf, hostConf, restarts, stored, forked>>
 
 \* a node that is behind every log it could be fed from receives a peer's snapshot (MsgSnap)
 InstallSnapshot(n, m) ==
@@ -84,7 +97,8 @@ InstallSnapshot(n, m) ==
   /\ hostConf' = [hostConf EXCEPT ![n] = IF UpdateOnInstall THEN Has(snap[m].conf) ELSE @]
   /\ snap' = [snap EXCEPT ![n] = snap[m]]
   /\ first' = [first EXCEPT ![n] = snap[m].idx + 1]
-  /\ UNCHANGED <<log, restarts>>
+  /\ stored' = [stored EXCEPT ![n] = TRUE]
+  /\ UNCHANGED <<log, restarts, forked>>
 
 \* restart: the library rebuilds its configuration from the stored snapshot and the entries after it
 \* (replayed through Apply); the host's copy starts from the store or from nothing
@@ -95,7 +109,11 @@ Restart(n) ==
   /\ hostConf' = [hostConf EXCEPT ![n] = IF RestoreOnRestart
                                           THEN Has(IF snap[n].idx = 0 THEN InitMembers ELSE snap[n].conf)
                                           ELSE NoConf]
-  /\ UNCHANGED <<log, snap, first>>
+  \* a replica with an empty store that is listed in the group's current membership: the allocator hands it that
+  \* list, startRaftNode bootstraps.  Right for the initial members (they all bootstrap the same group), a fork
+  \* for a node that was added to a running group
+  /\ forked' = [forked EXCEPT ![n] = @ \/ (~JoinerKnows /\ ~stored[n] /\ n \notin InitMembers /\ n \in MembersAt(Len(log)))]
+  /\ UNCHANGED <<log, snap, first, stored>>
 
 Next == \/ \E n \in Node : AppendAdd(n) \/ AppendRemove(n) \/ Apply(n) \/ LocalSnapshot(n) \/ Restart(n)
         \/ AppendData
@@ -110,5 +128,7 @@ SnapConfExact == \A n \in Node : snap[n].idx > 0 => snap[n].conf = MembersAt(sna
 \* given exact snapshots)
 LibConfExact == \A n \in Node : libConf[n] = MembersAt(applied[n])
 \* when the host holds a configuration at all it is the current one
+\* nobody bootstraps a second group over an existing one
+NoFork == \A n \in Node : ~forked[n]
 HostConfExact == \A n \in Node : hostConf[n].has => hostConf[n].conf = MembersAt(applied[n])
 =============================================================================
